@@ -5,7 +5,7 @@ which checks report a violation in seeded/<id>/meta.json (detected_by) and in se
 import json, os, subprocess, sys, glob, time
 RELATED = {"C01": ["C01"], "C02": ["C02"], "C03": ["C03"], "C04": ["C04"], "C05": ["C05"], "C06": ["C06"], "C07": ["C07"], "C08": ["C08"], "C09": ["C09"],
            "C10": ["C10"], "C11": ["C11"], "C12": ["C12"], "C13": ["C13"], "C14": ["C14"], "C15": ["C15"], "C16": ["C16"], "C17": ["C17"], "C18": ["C18"], "C19": ["C19"], "C20": ["C20"]}
-EXTRA = {"C04_m2": ["C05"], "C13_m1": ["C03"], "C13_m2": ["C11"], "C17_m2": ["C01"], "C19_m1": ["C05"], "C19_m2": ["C05"], "C02_m2": ["C03"], "C16_m2": ["C04"]}
+EXTRA = {"C04_m2": ["C05"], "C13_m1": ["C03"], "C13_m2": ["C11"], "C17_m2": ["C01"], "C19_m1": ["C05"], "C19_m2": ["C05"], "C19_m7": ["C05"], "C02_m2": ["C03"], "C16_m2": ["C04"]}
 ids = sys.argv[1:] or sorted(os.path.basename(d) for d in glob.glob("/verif/seeded/C*_m*"))
 wt = "/tmp/es_wt_%d" % os.getpid()
 subprocess.run("git -C /repo worktree remove --force %s" % wt, shell=True, capture_output=True)
